@@ -798,20 +798,22 @@ def validateSpread (S : Schema) (tc : String) (tcpos : Pos) (parent : Option Str
       else [newError tcpos "impossible fragment spread"]
     else []
 
+/-- The `ast.FragmentSpread` case (validate_fragments.go:139-145). -/
+def spreadTargetErrors (S : Schema) (D : Document) (scope : Option String) (n : String) (np : Pos) : List Err :=
+  match fragLast D n with
+  | none => [newError np "undefined fragment"]
+  | some f => validateSpread S f.tc f.tcpos scope
+
 mutual
 def spreadsSel (S : Schema) (D : Document) (scope : Option String) : Selection → List Err
   | .field _ n _ _ _ sel =>
     (match sel with
      | none => []
      | some ss => spreadsSet S D (innerScope S scope n) ss)
-  | .spread n np _ _ =>
-    (match fragLast D n with
-     | none => [newError np "undefined fragment"]
-     | some f => validateSpread S f.tc f.tcpos scope)
-  | .inline tc _ ss _ =>
-    (match tc with
-     | some (t, p) => validateSpread S t p scope
-     | none => []) ++ spreadsSet S D (inlineScope S scope tc) ss
+  | .spread n np _ _ => spreadTargetErrors S D scope n np
+  | .inline none _ ss _ => spreadsSet S D (inlineScope S scope none) ss
+  | .inline (some (t, p)) _ ss _ =>
+    validateSpread S t p scope ++ spreadsSet S D (inlineScope S scope (some (t, p))) ss
 def spreadsSet (S : Schema) (D : Document) (scope : Option String) : SelSet → List Err
   | .mk sels _ => spreadsSels S D scope sels
 def spreadsSels (S : Schema) (D : Document) (scope : Option String) : List Selection → List Err
@@ -819,10 +821,12 @@ def spreadsSels (S : Schema) (D : Document) (scope : Option String) : List Selec
   | s :: rest => spreadsSel S D scope s ++ spreadsSels S D scope rest
 end
 
-def validateFragmentSpreads (S : Schema) (D : Document) : List Err × Bool :=
+/-- The cycle search for every fragment name (validate_fragments.go:84-102); the flag says that
+    a search ran out of fuel. -/
+def fragmentCycleErrors (D : Document) : List Err × Bool :=
   let names := dedup ((fragsOf D).map (·.name))
   let fuel := (D.flatMap fun d => spreadNamesSet (defSel d)).length + names.length + 2
-  let (cyc, fo) := names.foldl (fun (st : List Err × Bool) n =>
+  names.foldl (fun (st : List Err × Bool) n =>
     match cycleSearch D n fuel [n] 0 [] with
     | none => (st.1, true)
     | some true =>
@@ -830,7 +834,14 @@ def validateFragmentSpreads (S : Schema) (D : Document) : List Err × Bool :=
        | some f => (st.1 ++ [newError f.pos "fragment cycle detected"], st.2)
        | none => st)
     | some false => st) ([], false)
-  (cyc ++ D.flatMap (fun d => spreadsSet S D (defScope S d) (defSel d)), fo)
+
+/-- The last inspection of validateFragmentSpreads (validate_fragments.go:131-153). -/
+def spreadChecks (S : Schema) (D : Document) : List Err :=
+  D.flatMap fun d => spreadsSet S D (defScope S d) (defSel d)
+
+def validateFragmentSpreads (S : Schema) (D : Document) : List Err × Bool :=
+  let (cyc, fo) := fragmentCycleErrors D
+  (cyc ++ spreadChecks S D, fo)
 
 /-! ## validate_values.go -/
 
@@ -874,7 +885,7 @@ def validateCoercion (S : Schema) (to : TRef) (allow : Bool) : Value → List Er
     (match to.nullable with
      | .list inner => coerceItems S inner items
      | .named n => coerceNamed S n (.list items p)
-     | .nonNull _ => [])
+     | .nonNull _ => [newError p "panic: unsupported input coercion type"])   -- unreachable: `nullable`
   | .obj fields p =>
     (match namedTarget to allow with
      | .error lt => [newError p ("cannot coerce to " ++ lt.toString)]
@@ -926,7 +937,9 @@ def coerceNamed (S : Schema) (n : String) : Value → List Err
        | .enum e _ => if vs.contains e then [] else [newError v.pos ("cannot coerce to " ++ n)]
        | _ => [newError v.pos ("cannot coerce to " ++ n)])
     | some (.input _) => [newError v.pos ("cannot coerce to " ++ n)]
-    | _ => []
+    -- `default: panic("unsupported input coercion type")`: an argument, input field or variable
+    -- whose type is not an input type (schema.New and the variable rules exclude it)
+    | _ => [newError v.pos "panic: unsupported input coercion type"]
 end
 
 /-- The callback of validateValues at a top-level value (validate_values.go:14-27). -/
